@@ -502,6 +502,32 @@ fn answer(a: &[&str]) -> String {
                 }
             }
         }
+        // meta_len <presence mask of the 6 optional attributes> <10 field lengths> -> "L <recorded group length> <bytes that follow the group length element>"
+        "meta_len" => {
+            use dicom_object::meta::FileMetaTable;
+            let mask: u32 = a[1].parse().unwrap();
+            let n: Vec<usize> = a[2..].iter().map(|x| x.parse().unwrap()).collect();
+            let s = |k: usize| "1234567890"[..n[k]].to_string();
+            let opt = |bit: u32, k: usize| if mask >> bit & 1 == 1 { Some(s(k)) } else { None };
+            let mut t = FileMetaTable {
+                information_group_length: 0xDEAD,
+                information_version: [0, 1],
+                media_storage_sop_class_uid: s(0),
+                media_storage_sop_instance_uid: s(1),
+                transfer_syntax: s(2),
+                implementation_class_uid: s(3),
+                implementation_version_name: opt(0, 4),
+                source_application_entity_title: opt(1, 5),
+                sending_application_entity_title: opt(2, 6),
+                receiving_application_entity_title: opt(3, 7),
+                private_information_creator_uid: opt(4, 8),
+                private_information: if mask >> 5 & 1 == 1 { Some(vec![7u8; n[9]]) } else { None },
+            };
+            t.update_information_group_length();
+            let mut out: Vec<u8> = Vec::new();
+            if t.write(&mut out).is_err() { return "BAD write_error".into(); }
+            format!("L {} {}", t.information_group_length, out.len() as i64 - 12)
+        }
         // c04_tokens codec default|nochange token... -> "N - <hex of the stream>"
         //   tokens: S:gggg,eeee,len  I:len  i  s  P  E:gggg,eeee,US,v,v..  E:gggg,eeee,VR,texthex  F:hex  O:n,n
         "c04_tokens" => {
